@@ -116,7 +116,7 @@ pub fn c08(args: Args) {
         "random concurrent write histories on 2-3 real replicas (same-uuid creates, same-name creates, concurrent edits of single- and multi-valued attributes, deletes racing edits, membership changes, revive) with skewed simulated clocks and a random schedule of pairwise incremental replications and occasional refresh, then a full mesh to quiescence; at quiescence the normalised dumps (all live, recycled, conflict entries with attribute values and change state; tombstones compared when present on both) must be identical; non-trivial = history with writes accepted on >= 2 replicas and >= 1 replication before the end; distinct by full op list");
     run.assume("tombstones reaped on one replica only (local changelog trim) are not compared; created_at_cid / last_modified_cid are local summaries and excluded");
     let prof = Profile {
-        replicas_min: 2, replicas_max: 3, file_backed: false, ops_min: 12, ops_max: 60, prefill: 0, long_gaps_when_replicated: false, level: kanidmd_lib::constants::DOMAIN_TGT_LEVEL, unique_names: true, home_creates: true, skewed_quarters: 2,
+        replicas_min: 2, replicas_max: 3, file_backed: false, ops_min: 12, ops_max: 60, prefill: 0, long_gaps_when_replicated: false, level: kanidmd_lib::constants::DOMAIN_TGT_LEVEL, unique_names: true, home_creates: true, skewed_quarters: 2, late_joiner: false,
         pop: Pop { persons: 3, services: 1, groups: 3, dyngroups: 1, oauths: 1, certs: 1, names: 4 },
         w: Weights { create: 34, create_pair: 3, rename: 10, set_desc: 14, add_member: 14, rem_member: 6, set_manager: 4, scope_map: 4, delete: 9, revive: 5, dyn_filter: 2,
             advance_small: 8, repl: 18, abort: 2, ..Default::default() },
@@ -151,6 +151,16 @@ pub fn c08(args: Args) {
     };
     let hooks_conf = Hooks { after_op: &after, at_end: &end_conf, nontrivial: &nt, dyn_check: false, quiesce: true, verify_sig: Some("c08/server-verify") };
     run_histories(&mut run, &args, 1008, args.tier.pick(50, 2500), &prof_conf, &hooks_conf);
+    // late joiner: a third replica joins by refresh from a random replica in the middle of the
+    // history, while changes are still in flight between the other two (equal clocks)
+    let prof_late = Profile { pop: prof.pop.clone(), w: prof.w.clone(), replicas_min: 3, replicas_max: 3, skewed_quarters: 0, late_joiner: true, ..prof };
+    let end_late = |w: &World, quiesced: bool, s: &[SchemaSnap], acc: &mut Acc| -> Vec<Finding> {
+        end(w, quiesced, s, acc).into_iter().map(|(sig, why)| (sig.replacen("c08/", "c08/late-joiner/", 1), why)).collect()
+    };
+    let hooks_late = Hooks { after_op: &after, at_end: &end_late, nontrivial: &nt, dyn_check: false, quiesce: true, verify_sig: Some("c08/server-verify") };
+    run_histories(&mut run, &args, 2008, args.tier.pick(60, 2500), &prof_late, &hooks_late);
+    let lj = run.acc.get("late_joiner_refreshed") > 0;
+    run.require(lj, "no late joiner was ever refreshed");
     for k in ["create", "rename", "set_desc", "add_member", "delete", "repl"] {
         let ok = run.acc.get(&format!("op.{k}.ok")) > 0;
         run.require(ok, &format!("operation kind {k} was never accepted"));
